@@ -1,35 +1,27 @@
 """Registry of checks: property -> harness units -> tests with per-tier budgets.
 
-unit:  name, pkg (package dir relative to /repo), files (under /verif/harness), tests
-test:  run (Go test name), quick / thorough (rapid case counts per process), shards (thorough processes),
-       quick_shards, steps (rapid -rapid.steps), race (build+run with -race), rapid (False for plain Go tests),
-       thorough_only, timeout_quick / timeout_thorough (s), env
+One file per property under lib/props/<ID>.py, each defining PROP = {
+  "rule":        text for evidence.coverage.rule (how cases are generated, what makes one non-trivial / distinct),
+  "assumptions": [..] copied into the evidence,
+  "units": [ {"name", "pkg" (package dir relative to the repo root), "files" (paths under /verif/harness),
+              "tests": [ {"run": Go test name, "quick": N, "thorough": N   (rapid cases per process),
+                          "shards": thorough processes (default 12), "quick_shards": (default 1),
+                          "steps": -rapid.steps, "race": bool, "rapid": False for plain Go tests,
+                          "thorough_only": bool, "timeout_quick"/"timeout_thorough": seconds, "env": {..}} ] } ],
+  "manifest": {"technique", "text", "note"}   -> MANIFEST.json (lib/gen_manifest.py)
+}
 """
+import importlib.util
+import os
 
 PERF_STUB = ("pkg/koordlet/util/perf_group/perf_group_linux.go is replaced (build overlay only) by a cgo-free stand-in "
              "with the same exported surface, because libpfm4 headers are not installed; no oracle touches perf counters")
 
 PROPS = {}
-
-PROPS["C06"] = {
-    "rule": ("rapid-generated cases. takeCPUs: (topology sockets1-2 x numa1-2 x cores1-8 x threads{1,2,4}, arbitrary free set, "
-             "arbitrary allocated details/refcounts, bind x exclusive policy, strategy, request 0..#cpus+2, optional preferred set); "
-             "non-trivial = asymmetric free set (a partially free core) AND request spanning more than one NUMA node AND success. "
-             "numaSplit: (1-4 NUMA nodes, free vectors, hint = any non-empty subset of ids, requests at/around the boundary); "
-             "non-trivial = hint is not {0..k} AND hinted nodes have unequal free memory. managerHistory: rapid state machine of "
-             "allocate+update / updateAgain / release / releaseUnknown through resourceManager; non-trivial = >=3 operations with a "
-             "NUMA-hint allocation or a CPU shared by two pods. distinct = FNV-64 fingerprint of the full case."),
-    "assumptions": [
-        "topologies are regular (every core has the same number of threads), as NewTopologyOptions builds them from the NRT report",
-        "allocations enter the ledger only through Allocate followed by Update (what Reserve does); informer-restored allocations are C19's subject",
-        "completeness of the NUMA split is asserted only for freely divisible requests (memory; cpu without cpu-bind)",
-    ],
-    "units": [
-        {"name": "numa", "pkg": "pkg/scheduler/plugins/nodenumaresource", "files": ["C06/c06_test.go"],
-         "tests": [
-             {"run": "TestVerifC06TakeCPUs", "quick": 3000, "thorough": 15000},
-             {"run": "TestVerifC06NUMASplit", "quick": 3000, "thorough": 20000},
-             {"run": "TestVerifC06ManagerHistory", "quick": 400, "thorough": 3000, "steps": 25},
-         ]},
-    ],
-}
+_d = os.path.join(os.path.dirname(os.path.abspath(__file__)), "props")
+for _fn in sorted(os.listdir(_d)):
+    if _fn.endswith(".py") and not _fn.startswith("_"):
+        _spec = importlib.util.spec_from_file_location("verif_prop_" + _fn[:-3], os.path.join(_d, _fn))
+        _m = importlib.util.module_from_spec(_spec)
+        _spec.loader.exec_module(_m)
+        PROPS[_fn[:-3]] = _m.PROP
